@@ -1,6 +1,7 @@
 import ZenonVerif.Lemmas.LedgerFifo
 import ZenonVerif.Lemmas.LedgerDemo
 import ZenonVerif.Props.C01
+import ZenonVerif.Gen.DbErr
 /-
 C04 — each send is received at most once, only by its addressee; contract inboxes are strict FIFO.
 Property theorems only (helpers: Lemmas/LedgerFifo.lean; vocabulary: see the header of Props/C01.lean).
@@ -90,6 +91,73 @@ theorem pre_gate_double_receive : C01.doubleReceive false = .ok 17 := C01.pre_ga
 
 /-- with the gate on, the third-party receive is refused -/
 theorem post_gate_third_party_refused : thirdPartyThenAddressee true = .error Err.receiverMismatch := by rfl
+
+/-! ## database read errors of the account store and the inbox (regenerated AST fact)
+
+The at-most-once clause rests on two stored facts being READ correctly: the received mark of a send (account key 6|hash,
+`IsReceived`) and the position counters of a contract's inbox (account key 7 `sequencerFrontIndex`, mailbox key 7
+`SequencerSize`). A read that fails for another reason than "no such key" must not be answered like an absent key
+("not received yet", "position 0"): the same send would be received again. `zvh facts` lists every database read of
+chain/account and chain/account/mailbox with the shape of its error handling (harness/cmd/zvh/f_dberr.go explains the
+tokens); the list below is the reviewed one. -/
+
+/-- Reviewed: no read error in chain/account or chain/account/mailbox is discarded or answered like an absent key,
+    except `leveldb.ErrNotFound` itself:
+    * `GetBalance`, `GetChainPlasma`, `parseAccountBlock` (Frontier / ByHash / ByHeight): ErrNotFound is "zero / no
+      block", every other error is returned to the caller; `MoreByHeight`, `AddChainPlasma` return the error of the
+      getter they call; `Identifier` hands it to `common.DealWithErr` (panic);
+    * `IsReceived`: ErrNotFound is "not received", every other error goes to `common.DealWithErr` (panic: the block
+      under verification is refused by the supervisor);
+    * `parseAccountHeader` (GetBlockWhichReceives, SequencerByHeight): ErrNotFound is "no header", every other error
+      panics;
+    * `sequencerFrontIndex` and `mailbox.SequencerSize` compare with ErrNotFound ONLY and otherwise decode the data
+      with `common.BytesToUint64` without looking at the error: on a failed read the data is nil and the decoding
+      panics (index out of range), so the answer is still not "0" - fail-closed, though by accident rather than by an
+      explicit check (listed as it is);
+    * the two iterators (`GetBalanceMap`, `GetUnreceivedAccountBlockHashes`) test `iterator.Error()` when `Next()`
+      gives false and return it;
+    * `db.GetFrontierIdentifier` has no error result (common/db panics inside), `db.DisableNotFound` (contract storage
+      view: ErrNotFound becomes an empty value there by design) is returned as a view, not read here. -/
+def reviewedAccountDbReadSites : List (String × String × String × List String) := [
+  ("chain/account/account_block.go:parseAccountBlock:param", "data []byte, err error", "err", ["if(err == leveldb.ErrNotFound){", "return nil, nil", "}", "if(err != nil){", "return nil, err", "}", "use:nom.DeserializeAccountBlock"]),
+  ("chain/account/account_block.go:accountStore.Frontier:db.GetEntryByHeight", "", "<arg:parseAccountBlock>", []),
+  ("chain/account/account_block.go:accountStore.Frontier:db.GetFrontierIdentifier", "", "<expr>", []),
+  ("chain/account/account_block.go:accountStore.ByHash:db.GetEntryByHash", "", "<arg:parseAccountBlock>", []),
+  ("chain/account/account_block.go:accountStore.ByHeight:db.GetEntryByHeight", "", "<arg:parseAccountBlock>", []),
+  ("chain/account/account_block.go:accountStore.MoreByHeight:as.ByHeight", "block, err :=", "err", ["if(err != nil){", "return nil, err", "}", "use:append"]),
+  ("chain/account/balance.go:accountStore.GetBalance:as.DB.Get", "data, err :=", "err", ["if(err == leveldb.ErrNotFound){", "return big.NewInt(0), nil", "}", "if(err != nil){", "return nil, err", "}", "return big.NewInt(0).SetBytes(data), nil"]),
+  ("chain/account/balance.go:accountStore.GetBalanceMap:as.DB.NewIterator", "iterator :=", "", ["use:iterator.Release", "if(!iterator.Next()){", "if(iterator.Error() != nil){", "return nil, iterator.Error()", "}", "break", "}", "if(iterator.Value() == nil){", "continue", "}", "use:iterator.Key", "use:iterator.Value"]),
+  ("chain/account/plasma.go:accountStore.GetChainPlasma:as.DB.Get", "data, err :=", "err", ["if(err == leveldb.ErrNotFound){", "return big.NewInt(0), nil", "}", "if(err != nil){", "return nil, err", "}", "return big.NewInt(0).SetBytes(data), nil"]),
+  ("chain/account/plasma.go:accountStore.AddChainPlasma:as.GetChainPlasma", "plasma, err :=", "err", ["if(err != nil){", "return err", "}", "use:plasma.Add", "use:common.BigIntToBytes"]),
+  ("chain/account/received.go:accountStore.IsReceived:as.DB.Get", "_, err :=", "err", ["if(err == leveldb.ErrNotFound){", "return false", "}", "use:common.DealWithErr"]),
+  ("chain/account/sequencer.go:accountStore.sequencerFrontIndex:as.DB.Get", "data, err :=", "err", ["if(err == leveldb.ErrNotFound){", "return 0", "}", "return common.BytesToUint64(data)"]),
+  ("chain/account/store.go:accountStore.Storage:db.DisableNotFound", "", "<returned>", []),
+  ("chain/account/store.go:accountStore.Identifier:as.Frontier", "frontier, err :=", "err", ["use:common.DealWithErr", "if(frontier == nil){", "return types.ZeroHashHeight", "}", "return frontier.Identifier()"]),
+  ("chain/account/mailbox/mailbox.go:parseAccountHeader:param", "data []byte, err error", "err", ["if(err == leveldb.ErrNotFound){", "return nil", "}", "if(err != nil){", "use:panic", "return nil", "}", "use:types.DeserializeAccountHeader"]),
+  ("chain/account/mailbox/mailbox.go:mailbox.GetBlockWhichReceives:m.DB.Get", "", "<arg:parseAccountHeader>", []),
+  ("chain/account/mailbox/mailbox.go:mailbox.GetUnreceivedAccountBlockHashes:m.DB.NewIterator", "iterator :=", "", ["use:iterator.Release", "if(!iterator.Next()){", "if(iterator.Error() != nil){", "return nil, iterator.Error()", "}", "break", "}", "if(iterator.Value() == nil){", "continue", "}", "use:iterator.Key"]),
+  ("chain/account/mailbox/mailbox.go:mailbox.SequencerSize:m.DB.Get", "data, err :=", "err", ["if(err == leveldb.ErrNotFound){", "return 0", "}", "return common.BytesToUint64(data)"]),
+  ("chain/account/mailbox/mailbox.go:mailbox.SequencerByHeight:m.DB.Get", "", "<arg:parseAccountHeader>", [])
+]
+
+set_option maxRecDepth 100000 in
+/-- generated fact: the database reads of chain/account and chain/account/mailbox and the handling of their errors are
+    exactly the reviewed ones (regenerated from the AST on every run: a read added, removed, re-bound or handled in
+    another shape changes the list) -/
+theorem account_store_read_errors_reviewed : Gen.accountDbReadSites = reviewedAccountDbReadSites := by decide
+
+set_option maxRecDepth 100000 in
+/-- independent of the reviewed list: no read site binds its error result to the blank identifier, drops the results
+    in a call statement, or binds them in a shape the scan cannot attribute ("?") -/
+theorem account_store_no_read_error_discarded :
+    ∀ x ∈ Gen.accountDbReadSites, x.2.2.1 ≠ "_" ∧ x.2.2.1 ≠ "<dropped>" ∧ x.2.2.1 ≠ "?" := by decide
+
+set_option maxRecDepth 100000 in
+/-- the fact list really contains the three reads the clause rests on -/
+theorem account_store_read_sites_cover : ∀ n ∈ ["chain/account/received.go:accountStore.IsReceived:as.DB.Get",
+    "chain/account/sequencer.go:accountStore.sequencerFrontIndex:as.DB.Get",
+    "chain/account/mailbox/mailbox.go:mailbox.SequencerSize:m.DB.Get"],
+    n ∈ Gen.accountDbReadSites.map (·.1) := by decide
 
 /-! ## non-vacuity -/
 
